@@ -18,7 +18,32 @@ def c06(ctx):
                                              env={"VERIF_SHARD": str(i), "VERIF_SHARDS": str(shards)}), range(shards)))
 
 
+def c07(ctx):
+    import concurrent.futures as cf
+    ctx.build_test("internal/app/connectconformance", False, "cc")
+    with cf.ThreadPoolExecutor(3) as ex:
+        futs = [ex.submit(ctx.gotest, "cc", "^TestVerifC07Library$", timeout=2400, label="cc-c07-%d" % i, env={"VERIF_RUNIDX": str(i)}) for i in (0, 1)]
+        futs.append(ex.submit(ctx.gotest, "cc", "^TestVerifC07Embedded$", timeout=900))
+        [f.result() for f in futs]
+    # same seed, two processes: Go randomises map iteration per process, the digests must agree
+    import os
+    d = [os.path.join(ctx.reports_dir, "cc-c07-%d" % i, "c07-digests-%d.txt" % i) for i in (0, 1)]
+    if all(os.path.exists(x) for x in d):
+        a, b = open(d[0]).read().split("\n"), open(d[1]).read().split("\n")
+        diff = [i for i, (x, y) in enumerate(zip(a, b)) if x != y]
+        ctx.extra["cross_process_inputs_compared"] = min(len(a), len(b))
+        if diff or len(a) != len(b):
+            ctx.add_violation("library/unstable-across-processes", "expansion of input #%s differs between two processes of the same seed" % (diff[:5],), {"indices": diff[:50]})
+    else:
+        ctx.inconclusive.append("cross-process digests missing")
+
+
 SPECS = {
+    "C07": {"fn": c07, "level": "exploration",
+            "technique": "runtime monitoring: reference-model monitor (independent selection/naming/population model) compared with the real newTestCaseLibrary/allPermutations/casesByServer on generated suite sets, repeated expansions and a second process",
+            "text": "newTestCaseLibrary is executed on thousands of generated suite sets x config-case sets x modes (each 5 times, and once more in a second process to vary map iteration order) and on the embedded corpus x shipped configs; an independent model decides existence, full name, request axes, TLS markers, default service/method, single server group, gRPC-peer applicability and marked names, and which suite sets must be rejected.",
+            "note": "Trusts harness/cc/model_library_test.go as the meaning of docs/authoring_test_cases.md; connectVersionMode is left unspecified; names that path.Join would rewrite are not generated here.",
+            "assumptions": ["model_library_test.go is the specification of suite expansion"]},
     "C06": {"fn": c06, "level": "exploration",
             "technique": "runtime monitoring: reference-model monitor (declarative set comprehension) compared with the real parseConfig on a bounded-exhaustive feature slice and seeded random configs",
             "text": "parseConfig is executed on every feature block of a 4.5M-config slice (thorough: complete, 16 shards; quick: 1/64 stratified) and on 60k-1.1M random configs with include/exclude entries; an independent comprehension of the documented semantics decides set equality, possibility of every returned case, and the must/may-error rule.",
